@@ -60,7 +60,7 @@ def group_rules(rules):
 
 
 def rand_grammar(rng, max_t=5, max_n=5, max_alt=3, max_len=4, p_prec=0.5, p_lit=0.2,
-                 p_nullable=None, p_rule_prec=0.15, big=False):
+                 p_nullable=None, p_rule_prec=0.15, big=False, p_chain=0.25):
     nT = rng.randint(1, max_t)
     nN = rng.randint(1, max_n)
     if big:
@@ -93,6 +93,19 @@ def rand_grammar(rng, max_t=5, max_n=5, max_alt=3, max_len=4, p_prec=0.5, p_lit=
             if ln > 0 and rng.random() < p_rule_prec:
                 pr = rng.choice(terms)
             rules.append({"lhs": nt, "rhs": rhs, "prec": pr})
+    # indirect nullability written top-down: X : Y ; Y : Z ; Z : | t  (the nullable fixpoint needs one pass per link)
+    if rng.random() < p_chain:
+        k = rng.randint(2, 4)
+        chain = ["Q%d" % i for i in range(k)]
+        host = rng.choice(rules)
+        host["rhs"].insert(rng.randint(0, len(host["rhs"])), chain[0])
+        for i in range(k - 1):
+            body = [chain[i + 1]] * rng.randint(1, 2)
+            rules.append({"lhs": chain[i], "rhs": body, "prec": None})
+        rules.append({"lhs": chain[-1], "rhs": [], "prec": None})
+        if rng.random() < 0.7:
+            rules.append({"lhs": chain[-1], "rhs": [rng.choice(terms)], "prec": None})
+        nts = nts + chain
     prec = []
     if rng.random() < p_prec:
         pool = [t for t in terms if rng.random() < 0.6]
@@ -124,12 +137,26 @@ def expr_grammar(rng):
     rules = [{"lhs": "E", "rhs": ["T0"], "prec": None}]
     for c in ops:
         rules.append({"lhs": "E", "rhs": ["E", "'%s'" % c, "E"], "prec": None})
+    # optionally the operands sit below a chain of unit productions with a postfix operator
+    # (includes-relation cycles among the E transitions + deeper nodes that read other terminals)
+    layered = rng.random() < 0.5
+    if layered:
+        rules[0] = {"lhs": "E", "rhs": ["P"], "prec": None}
+        depth = rng.randint(1, 3)
+        chain = ["P"] + ["P%d" % i for i in range(1, depth)]
+        for i, n in enumerate(chain):
+            nxt = chain[i + 1] if i + 1 < len(chain) else "Q"
+            rules.append({"lhs": n, "rhs": [nxt], "prec": None})
+            if rng.random() < 0.7:
+                rules.append({"lhs": n, "rhs": [nxt, "'!'"], "prec": None})
+        rules.append({"lhs": "Q", "rhs": ["T0"], "prec": None})
+        rules.append({"lhs": "Q", "rhs": ["'('", "E", "')'"], "prec": None})
     unary = rng.random() < 0.5
     prec = list(levels)
     if unary:
         prec.append(("right", ["UMINUS"]))
         rules.append({"lhs": "E", "rhs": ["'%s'" % ops[0], "E"], "prec": "UMINUS"})
-    if rng.random() < 0.5:
+    if rng.random() < 0.5 and not layered:
         rules.append({"lhs": "E", "rhs": ["'('", "E", "')'"], "prec": None})
     toks = ["T0"] + (["UMINUS"] if unary else [])
     lits = []
@@ -137,7 +164,12 @@ def expr_grammar(rng):
         for x in r["rhs"]:
             if x.startswith("'") and x not in lits:
                 lits.append(x)
-    return {"tokens": toks, "lits": lits, "prec": prec, "nts": ["E"], "start": "E", "rules": rules}
+    nts = []
+    for r in rules:
+        if r["lhs"] not in nts:
+            nts.append(r["lhs"])
+    rules.sort(key=lambda r: nts.index(r["lhs"]))
+    return {"tokens": toks, "lits": lits, "prec": prec, "nts": nts, "start": "E", "rules": rules, "layered": layered}
 
 
 CORPUS = {
@@ -171,6 +203,13 @@ CORPUS = {
     "example_e": "%token 'n'\n%start L\n%%\nL : | E L ;\nE : 'n' ;\n%%\n",
     # includes relation through nullable tail
     "includes": "%token A B C\n%start S\n%%\nS : A T ;\nT : U V ;\nU : B ;\nV : | C ;\n%%\n",
+    # nullable only indirectly, helper rules listed after their use (fixpoint needs several passes)
+    "nullable_chain": "%token A C D\n%start S\n%%\nS : H X C ;\nH : A ;\nX : Y ;\nY : | D ;\n%%\n",
+    "nullable_chain3": "%token A C D\n%start S\n%%\nS : H X C | H W D C ;\nH : A ;\nX : Y Y ;\nY : Z ;\nZ : V ;\nV : | D ;\nW : X X ;\n%%\n",
+    # ambiguous operators over a chain of unit productions with a postfix operator
+    "layered_expr": "%token NUM\n%left '+' '-'\n%left '*' '/'\n%start E\n%%\nE : E '+' E | E '-' E | E '*' E | E '/' E | P ;\nP : Q | Q '!' ;\nQ : NUM | '(' E ')' ;\n%%\n",
+    # mutual right recursion: a cycle of length 3 in the includes relation with different outside contexts
+    "includes_ring": "%token X Y Z C M P Q T U V\n%start S\n%%\nS : U A P | V B Q | T C0 T ;\nA : X B | X ;\nB : Y C0 | Y C M ;\nC0 : Z A | C ;\n%%\n",
     # NQLALR-separating family (Bermudez/Logothetis style)
     "nqlalr": "%token A B C D G\n%start S\n%%\nS : A X C | A Y D | B X D | B Y C | G X G ;\nX : Z ;\nY : Z ;\nZ : ;\n%%\n",
 }
